@@ -4,35 +4,9 @@
 //! stated error code; its twin differs only by the offending line and must compile (a witness whose path is merely wrong
 //! would also "fail to compile").  Run with `cargo +nightly test --doc` (error codes are ignored on stable).
 
-/// W1: the completion state (`autocompleted <= buffer.len()`, the invariant C03 assumes a completer preserves) cannot be
-/// written from outside: the fields of `Autocompletion` are private.
-/// ```compile_fail,E0616
-/// let mut buf = [0u8; 8];
-/// let mut a = embedded_cli::autocomplete::Autocompletion::new(&mut buf);
-/// a.autocompleted = Some(100);
-/// a.merge_autocompletion("x");
-/// ```
-/// twin:
-/// ```no_run
-/// let mut buf = [0u8; 8];
-/// let mut a = embedded_cli::autocomplete::Autocompletion::new(&mut buf);
-/// a.merge_autocompletion("x");
-/// ```
-pub struct W1AutocompletionFieldsPrivate;
-
-/// W2: the completion buffer itself cannot be swapped or read raw from outside.
-/// ```compile_fail,E0616
-/// let mut buf = [0u8; 8];
-/// let a = embedded_cli::autocomplete::Autocompletion::new(&mut buf);
-/// let _ = a.buffer.len();
-/// ```
-/// twin:
-/// ```no_run
-/// let mut buf = [0u8; 8];
-/// let a = embedded_cli::autocomplete::Autocompletion::new(&mut buf);
-/// let _ = a.autocompleted();
-/// ```
-pub struct W2AutocompletionBufferPrivate;
+// W1 / W2 / W6 (no field of `Autocompletion` or `Writer` is accessible) are generated per field from the current field
+// names by analysis/witness.py and appended below at run time: a witness must fail because the field is *private* (E0616),
+// not because a renamed field no longer exists.
 
 /// W3: the line editor (cursor / valid / buffer: the invariant `cursor <= valid <= len(buffer)` and the UTF-8 content of
 /// `buffer[..valid]`) is not reachable at all: its module is private.
@@ -65,21 +39,6 @@ pub struct W4HistoryModulePrivate;
 /// use embedded_cli::arguments::Arg;
 /// ```
 pub struct W5TokenModulePrivate;
-
-/// W6: the writer's dirty tracking (which decides the line break before the next prompt) changes only through its
-/// methods: the fields are private.
-/// ```compile_fail,E0616
-/// fn f<W: embedded_io::Write<Error = E>, E: embedded_io::Error>(w: &mut embedded_cli::writer::Writer<'_, W, E>) {
-///     w.dirty = false;
-/// }
-/// ```
-/// twin:
-/// ```no_run
-/// fn f<W: embedded_io::Write<Error = E>, E: embedded_io::Error>(w: &mut embedded_cli::writer::Writer<'_, W, E>) {
-///     let _ = w.write_str("x");
-/// }
-/// ```
-pub struct W6WriterFieldsPrivate;
 
 /// W7: the scalar decoder and the unchecked helpers are internal (no caller outside the crate can violate their
 /// `# Safety` contracts).
